@@ -153,22 +153,27 @@ func verifMapText(n int) string {
 // args: init expression for K, mutation program, reg|noreg
 func VerifConstant(args []string) {
 	initE, mut := args[0], args[1]
+	name := "K"
+	if len(args) > 3 && args[3] != "" {
+		name = args[3] // another spelling of a constant name: substituted for K as a whole word
+		mut = verifReplaceIdent(mut, "K", name)
+	}
 	s, _ := verifNewState(len(args) > 2 && args[2] == "noreg")
 	s.MaxDepth = 80
 	all := []string{initE, mut}
 	vals := verifVals(all)
 	verifSmallVals(all, vals)
-	session := []string{"K = " + initE}
+	session := []string{name + " = " + initE}
 	r := verifRunSession(s, &strings.Builder{}, vals, session)
 	if r[0].panics != "" || r[0].isErr {
 		vReach("constant could not be created")
 		return
 	}
-	snap := verifDeepCopy(verifGet(s, "K"))
+	snap := verifDeepCopy(verifGet(s, name))
 	isFunc := snap != nil && snap.Type() == object.FUNC
 	var callBefore verifOutcome
 	if isFunc {
-		callBefore = verifRunOne(s, "K(1)")
+		callBefore = verifRunOne(s, name+"(1)")
 	}
 	o := verifRunOne(s, mut)
 	if o.panics != "" {
@@ -177,14 +182,14 @@ func VerifConstant(args []string) {
 	if o.isErr {
 		vReach("mutation attempt refused")
 	}
-	cur := verifGet(s, "K")
+	cur := verifGet(s, name)
 	vAssert(cur != nil, "constant/still-bound")
 	if cur == nil {
 		return
 	}
 	vAssert(verifSame(cur, snap), "constant/value-unchanged")
 	if isFunc && cur.Type() == object.FUNC {
-		verifSameOutcome(callBefore, verifRunOne(s, "K(1)"), "constant/function-behaves-as-before")
+		verifSameOutcome(callBefore, verifRunOne(s, name+"(1)"), "constant/function-behaves-as-before")
 	}
 }
 
@@ -236,4 +241,20 @@ func VerifAlias(args []string) {
 			vAssert(verifSame(cur, snaps[i]), "alias/large-container/other-binding-unchanged")
 		}
 	}
+}
+
+// verifReplaceIdent replaces the identifier old (as a whole word) by new in code.
+func verifReplaceIdent(code, old, new string) string {
+	var sb strings.Builder
+	for i := 0; i < len(code); {
+		if i+len(old) <= len(code) && code[i:i+len(old)] == old &&
+			(i == 0 || !verifIsIdentByte(code[i-1])) && (i+len(old) == len(code) || !verifIsIdentByte(code[i+len(old)])) {
+			sb.WriteString(new)
+			i += len(old)
+			continue
+		}
+		sb.WriteByte(code[i])
+		i++
+	}
+	return sb.String()
 }
